@@ -53,8 +53,11 @@ def fam(name):
 
 # ------------------------------------------------------------------ basic
 @fam("MatrixMult")
-def _(n, m, cplx=False, otherdims=None, sparse=False):
+def _(n, m, cplx=False, otherdims=None, sparse=False, single=False):
     A = (cvec(("mm", n, m), n * m) if cplx else ivec(("mm", n, m), n * m)).reshape(n, m)
+    if single:
+        A = A.astype(np.complex64 if cplx else np.float32)
+        return pylops.MatrixMult(A, dtype=A.dtype)
     if sparse:
         import scipy.sparse as ss
         A = ss.csr_matrix(A)
@@ -62,8 +65,12 @@ def _(n, m, cplx=False, otherdims=None, sparse=False):
 
 
 @fam("Diagonal")
-def _(dims, axis=-1, cplx=False, full=False):
+def _(dims, axis=-1, cplx=False, full=False, single=False):
     dims = tup(dims)
+    if single:      # single-precision operator; the small-integer data keep every product exact
+        n = dims[axis]
+        d = (cvec(("dg", dims, axis), n) if cplx else ivec(("dg", dims, axis), n)).astype(np.complex64 if cplx else np.float32)
+        return pylops.Diagonal(d, dims=dims, axis=axis, dtype=d.dtype)
     if full:
         d = (cvec(("dg", dims), prod(dims)) if cplx else ivec(("dg", dims), prod(dims))).reshape(dims)
         return pylops.Diagonal(d, dtype=d.dtype)
@@ -404,8 +411,11 @@ def _(nt, nh, npx, nfft, kind="linear", engine="numpy", flims=None):
 
 
 @fam("FourierRadon3D")
-def _(nt, nhy, nhx, npy, npx, nfft, engine="numpy"):
+def _(nt, nhy, nhx, npy, npx, nfft, engine="numpy", flims=None):
     t = np.arange(nt) * 0.5
+    if flims is not None:
+        return sp.FourierRadon3D(t, np.arange(nhy) * 1.0 - nhy // 2, np.arange(nhx) * 1.0 - nhx // 2,
+                                 np.linspace(-0.2, 0.2, npy), np.linspace(-0.1, 0.1, npx), nfft, flims=tup(flims), engine=engine)
     return sp.FourierRadon3D(t, np.arange(nhy) * 1.0 - nhy // 2, np.arange(nhx) * 1.0 - nhx // 2,
                              np.linspace(-0.2, 0.2, npy), np.linspace(-0.1, 0.1, npx), nfft, engine=engine)
 
@@ -488,7 +498,7 @@ def _(nw, nt0, ntheta, spatdims=None, explicit=False, kind="centered", lineariza
 
 
 @fam("Kirchhoff")
-def _(nz, nx, nt, ns, nr, engine="numpy", dynamic=False, wavfilter=False):
+def _(nz, nx, nt, ns, nr, engine="numpy", dynamic=False, wavfilter=False, aperture=None):
     z = np.arange(nz) * 4.0
     x = np.arange(nx) * 4.0
     t = np.arange(nt) * 0.004
@@ -496,7 +506,7 @@ def _(nz, nx, nt, ns, nr, engine="numpy", dynamic=False, wavfilter=False):
     recs = np.vstack((np.linspace(0, x[-1], nr), np.zeros(nr)))
     wav = np.array([0.0, 1.0, 2.0, 1.0, 0.0])
     return wp.Kirchhoff(z, x, t, srcs, recs, 1000.0, wav, 2, mode="analytic", engine=engine,
-                        dynamic=dynamic, wavfilter=wavfilter)
+                        dynamic=dynamic, wavfilter=wavfilter, aperture=tup(aperture))
 
 
 
@@ -532,18 +542,18 @@ def _(nt, nhy, nhx):
 
 
 @fam("Sliding3D")
-def _(savetaper=True, tapertype="hanning"):
+def _(savetaper=True, tapertype="hanning", nwins=(2, 2)):
     nwin, nover, nop, nt = (4, 4), (2, 2), (2, 2), 2
-    dimsd = (6, 6, nt)
-    nwins = (2, 2)
+    nwins = tuple(nwins)
+    dimsd = tuple(w + (k - 1) * (w - o) for w, o, k in zip(nwin, nover, nwins)) + (nt,)
     Op = _leaf(("sl3", nt), nwin[0] * nwin[1] * nt, nop[0] * nop[1] * nt)
     return sp.Sliding3D(Op, (nwins[0] * nop[0], nwins[1] * nop[1], nt), dimsd, nwin, nover, nop, tapertype=tapertype, savetaper=savetaper)
 
 
 @fam("Patch3D")
-def _(savetaper=True, tapertype="hanning"):
+def _(savetaper=True, tapertype="hanning", nwins=(2, 2, 2)):
     nwin, nover, nop = (4, 4, 4), (2, 2, 2), (2, 2, 2)
-    nwins = (2, 2, 2)
+    nwins = tuple(nwins)
     dimsd = tuple(w + (k - 1) * (w - o) for w, o, k in zip(nwin, nover, nwins))
     dims = tuple(k * p for k, p in zip(nwins, nop))
     Op = _leaf(("p3",), prod(nwin), prod(nop))
@@ -597,6 +607,7 @@ COMPLEX_INPUT_OK = {"AVOLinearModelling", "CausalIntegration", "Convolve1D", "Co
 
 # families that (on the unchanged tree) allocate their output with the INPUT's dtype and therefore truncate integer-dtype
 # inputs: known finding C02-int-input; integer-dtype probes are not generated for them
+REAL_INPUT_BAD = set()      # complex-linear families that mishandle real-dtype inputs (none on the current tree)
 INT_INPUT_BAD = {"NonStationaryConvolve1D", "Seislet", "ChirpRadon2D", "ChirpRadon3D"}
 
 
@@ -707,6 +718,10 @@ def grid(tier, extra=True):
                 continue
             add("Compound", expr=e, cplx=c)
     add("Diagonal", dims=[3, 4], full=True)
+    for c in (False, True):
+        add("Diagonal", dims=[4], cplx=c, single=True)
+        add("Diagonal", dims=[2, 3], axis=-1, cplx=c, single=True)
+        add("MatrixMult", n=3, m=2, cplx=c, single=True)
     add("Diagonal", dims=[2, 3], full=True, cplx=True)
     # filter longer than the model (the _Convolve1Dlong class): odd/even model and filter lengths, several offsets
     for n, nh in [(4, 9), (5, 9), (6, 11), (5, 8), (4, 6), (3, 4)]:
@@ -804,6 +819,9 @@ def grid(tier, extra=True):
                     add("FFT", dims=[n], nfft=nfft, norm=norm, real=real, engine=engine, sampling=0.5)
                 add("FFT", dims=[6], norm=norm, real=real, engine=engine, ifftshift_before=True, fftshift_after=not real)
                 add("FFT", dims=[3, 4], axis=0, norm=norm, real=real, engine=engine)
+                if norm != "1/n":
+                    add("FFT", dims=[5], nfft=8, norm=norm, real=real, engine=engine, ifftshift_before=True)
+                    add("FFT", dims=[6, 2], axis=0, nfft=4, norm=norm, real=real, engine=engine, ifftshift_before=True, fftshift_after=not real)
                 add("FFT", dims=[2, 5, 2], axis=1, nfft=6, norm=norm, real=real, engine=engine)
     for engine in ("numpy", "scipy"):
         for norm in norms:
@@ -868,6 +886,9 @@ def grid(tier, extra=True):
         add("FourierRadon3D", nt=4, nhy=2, nhx=3, npy=2, npx=2, nfft=4, engine=engine)
         add("Kirchhoff", nz=4, nx=5, nt=12, ns=2, nr=3, engine=engine)
         add("Kirchhoff", nz=4, nx=5, nt=12, ns=2, nr=3, engine=engine, dynamic=True)
+        add("Kirchhoff", nz=4, nx=5, nt=12, ns=2, nr=3, engine=engine, dynamic=True, aperture=[1.0, 3.0])
+        add("Kirchhoff", nz=4, nx=5, nt=12, ns=2, nr=3, engine=engine, dynamic=True, wavfilter=True)
+        add("FourierRadon3D", nt=6, nhy=2, nhx=3, npy=2, npx=2, nfft=8, engine=engine, flims=[1, 4])
     add("ChirpRadon2D", nt=6, nh=5)
     for st in (True, False):
         for tp in ("hanning", "cosine", None):
@@ -886,6 +907,12 @@ def grid(tier, extra=True):
     for st in (True, False):
         add("Sliding3D", savetaper=st)
         add("Patch3D", savetaper=st, tapertype="cosine")
+        add("Patch3D", savetaper=st, tapertype="cosine", nwins=[3, 2, 2])      # an interior patch on each axis in turn
+        add("Patch3D", savetaper=st, tapertype="cosine", nwins=[2, 3, 2])
+        add("Patch3D", savetaper=st, tapertype="cosine", nwins=[2, 2, 3])
+        add("Sliding3D", savetaper=st, tapertype="cosine", nwins=[3, 2])
+        add("Sliding3D", savetaper=st, tapertype="cosine", nwins=[2, 3])
+        add("Sliding2D", nwin=4, nover=2, nwins=3, nop=2, nt=2, savetaper=st)
     for lin in ("akirich", "fatti", "ps"):
         add("PrestackWaveletModelling", nt0=5, ntheta=3, nwav=3, linearization=lin)
     for engine in ("numpy", "numba"):
